@@ -90,6 +90,26 @@ func VerifFieldOptional(f pure.Field) bool {
 //	(S,f…) struct, a field is `n` when absent        (U,idx,f…) union variant `idx` with its fields
 //	(A,e…) array / tuple                             (M,(S,k,v)…) dictionary
 func VerifBuild(ins pure.TypeInstance, t *VerifSx) (KernelValue, error) {
+	return verifBuild(ins, t)
+}
+
+// VerifBuildTop builds a whole value; ErrVerifAbsent (with a nil value) if the shape fits but some TL2-origin
+// optional field is absent.
+func VerifBuildTop(ins pure.TypeInstance, t *VerifSx) (KernelValue, error) {
+	verifSawAbsent = false
+	v, err := verifBuild(ins, t)
+	if err != nil {
+		return nil, err
+	}
+	if verifSawAbsent {
+		return nil, ErrVerifAbsent
+	}
+	return v, nil
+}
+
+var verifSawAbsent bool
+
+func verifBuild(ins pure.TypeInstance, t *VerifSx) (KernelValue, error) {
 	switch in := ins.(type) {
 	case *pure.TypeInstancePrimitive:
 		return verifPrim(in, t)
@@ -131,7 +151,7 @@ func VerifBuild(ins pure.TypeInstance, t *VerifSx) (KernelValue, error) {
 		}
 		value := &KernelValueArray{instance: in}
 		for _, e := range t.List[1:] {
-			ev, err := VerifBuild(in.Field().TypeInstance(), e)
+			ev, err := verifBuild(in.Field().TypeInstance(), e)
 			if err != nil {
 				return nil, err
 			}
@@ -158,7 +178,7 @@ func VerifBuild(ins pure.TypeInstance, t *VerifSx) (KernelValue, error) {
 func verifStruct(in *pure.TypeInstanceStruct, t *VerifSx) (KernelValueStruct, error) {
 	if in.IsAlias() {
 		value := KernelValueStruct{instance: in, fields: make([]KernelValue, 1)}
-		fv, err := VerifBuild(in.Fields()[0].TypeInstance(), t)
+		fv, err := verifBuild(in.Fields()[0].TypeInstance(), t)
 		if err != nil {
 			return value, err
 		}
@@ -184,8 +204,9 @@ func verifStructFields(in *pure.TypeInstanceStruct, ts []*VerifSx) (KernelValueS
 			}
 			if f.FieldMask() == nil {
 				// the interpreter has no "absent" for TL2-origin optional fields (and creating the default of a
-				// recursive type would not terminate): such values are not interpretable under this schema
-				return value, ErrVerifAbsent
+				// recursive type would not terminate): the value is not interpretable under this schema; keep
+				// checking the shape of the rest and report ErrVerifAbsent at the end
+				verifSawAbsent = true
 			}
 			continue
 		}
@@ -196,7 +217,7 @@ func verifStructFields(in *pure.TypeInstanceStruct, ts []*VerifSx) (KernelValueS
 			value.fields[i] = CreateValue(f.TypeInstance())
 			continue
 		}
-		fv, err := VerifBuild(f.TypeInstance(), t)
+		fv, err := verifBuild(f.TypeInstance(), t)
 		if err != nil {
 			return value, err
 		}
